@@ -37,8 +37,33 @@ class XBase(BaseException):
     pass
 
 
-def fresh_exc(i):
-    return [XErr('injected %d' % i), OSError(5, 'injected %d' % i), XBase('injected %d' % i), KeyboardInterrupt()][i % 4]
+class XYaml(yaml.YAMLError):
+    pass
+
+
+KINDS = [
+    lambda m: XErr(m), lambda m: OSError(5, m), lambda m: XBase(m), lambda m: KeyboardInterrupt(),
+    # builtin classes that library code is tempted to catch around a neighbouring operation
+    lambda m: AttributeError(m), lambda m: TypeError(m), lambda m: ValueError(m), lambda m: KeyError(m), lambda m: IndexError(m),
+    lambda m: UnicodeDecodeError('utf-8', b'\xff', 0, 1, m), lambda m: UnicodeEncodeError('utf-8', 'x', 0, 1, m),
+    lambda m: RuntimeError(m), lambda m: ImportError(m), lambda m: LookupError(m),
+    lambda m: XYaml(m), lambda m: yaml.MarkedYAMLError(problem=m), lambda m: yaml.reader.ReaderError('x', 0, 0, 'utf-8', m),
+    lambda m: yaml.constructor.ConstructorError(None, None, m, None), lambda m: yaml.representer.RepresenterError(m),
+    lambda m: yaml.emitter.EmitterError(m), lambda m: AssertionError(m), lambda m: NotImplementedError(m),
+]
+NK = len(KINDS)
+
+
+def fresh_exc(i, kind=None):
+    return KINDS[(i if kind is None else kind) % NK]('injected %d' % i)
+
+
+def kinds_at(i, N, special=False):
+    """Exception kinds injected at invocation index i of N: one by rotation everywhere; every kind at the
+    first two and the last invocation and at 'special' invocations (flush calls)."""
+    if special or i < 2 or i == N - 1:
+        return list(range(NK))
+    return [i % NK]
 
 
 def plan(tier, seed):
@@ -148,11 +173,12 @@ def read_case(env, r, data, label, op, lname, schedule, only=None):
     N = len(s0.calls)
     ctx.stat('read_cases')
     ctx.statmax('max:read_invocations', N)
-    for i in (indices(N, r) if only is None else [only]):
-        exc = fresh_exc(i)
+    for i, kind in [(i, k) for i in (indices(N, r) if only is None else [only]) for k in kinds_at(i, N)]:
+        exc = fresh_exc(i, kind)
         st, e, got, s = run_read(op, lname, data, schedule, i, exc)
         raised = len(s.calls) > i and s.calls[i][1] is None
-        ctx.case(core.h64('r', label, op, lname, repr(schedule), i), raised, ['read:' + op])
+        ctx.case(core.h64('r', label, op, lname, repr(schedule), i, kind), raised, ['read:' + op])
+        ctx.stat('kind:' + type(exc).__name__)
         ctx.stat('faults_injected' if raised else 'fault_point_not_reached')
         if not raised:
             # the run ended (error or completion) before the i-th read: must equal the fault-free outcome
@@ -201,11 +227,12 @@ def write_case(env, r, kind, dname, mk, label, opts, text, only=None):
     full = w0.written()
     ctx.stat('write_cases')
     ctx.statmax('max:write_invocations', N)
-    for i in (indices(N, r) if only is None else [only]):
-        exc = fresh_exc(i)
+    for i, ek in [(i, k) for i in (indices(N, r) if only is None else [only]) for k in kinds_at(i, N, w0.ops[i][0] == 'f')]:
+        exc = fresh_exc(i, ek)
         st, e, w = run_write(kind, dname, mk(), opts, text, i, exc)
         raised = len(w.ops) > i and w.ops[i][0] == 'x'
-        ctx.case(core.h64('w', label, kind, dname, repr(opts), text, i), raised, ['write:' + kind])
+        ctx.case(core.h64('w', label, kind, dname, repr(opts), text, i, ek), raised, ['write:' + kind, 'write_op:' + w0.ops[i][0]])
+        ctx.stat('kind:' + type(exc).__name__)
         ctx.stat('faults_injected' if raised else 'fault_point_not_reached')
         if not raised:
             continue
@@ -334,8 +361,9 @@ def callback_cases(env, r, only=None):
         N = cb.n
         ctx.stat('callback_cases')
         ctx.statmax('max:callback_invocations', N)
-        for i in (range(N) if only is None else [only]):
-            exc = fresh_exc(i)
+        for i, ek in [(i, k) for i in (range(N) if only is None else [only]) for k in kinds_at(i, N, i % 7 == 3)]:
+            exc = fresh_exc(i, ek)
+            ctx.stat('kind:' + type(exc).__name__)
             cb.n, cb.fail_at, cb.exc, cb.raised = 0, i, exc, False
             try:
                 fn()
@@ -344,7 +372,7 @@ def callback_cases(env, r, only=None):
                 if isinstance(e2, (MemoryError, SystemExit)) or (isinstance(e2, KeyboardInterrupt) and e2 is not exc):
                     raise
                 st, e = 'exc', e2
-            ctx.case(core.h64('cb', label, i), cb.raised, ['callback:' + label.split(':')[0]])
+            ctx.case(core.h64('cb', label, i, ek), cb.raised, ['callback:' + label.split(':')[0]])
             ctx.stat('faults_injected' if cb.raised else 'fault_point_not_reached')
             if cb.raised and (st != 'exc' or e is not exc):
                 ctx.violation(dict(case, index=i), {'what': 'the callback\'s exception did not reach the caller unchanged', 'injected': repr(exc),
